@@ -37,7 +37,7 @@ type mconn struct {
 	accepted bool
 }
 
-const ruleC11Seq = "sequential phase on a real loopback socket: listener with backlog from {1,2,4,128}, accept filter from {none, first byte != 'X'}, batch reading {off, size 2, size 8}; 1..6 remote sockets (same IP, different ports); steps send(remote, size 9..8192 or empty, first byte 'X' or not), burst (the read loop is parked inside the accept filter by a gate datagram while 2..6 datagrams, with runs of one remote, are sent back to back, so that they are dispatched from one batch), accept, read, close, close-again (of a connection closed earlier, also after its remote has been given a new one), send-again-after-close; after every send a marker datagram from an always-accepted remote is sent and read back, which (single-threaded FIFO read loop) proves the earlier datagram has been dispatched, so refusals are decidable without sleeping; model: remote -> connection/backlog/queue; oracle: Accept returns the connections in creation order with the right RemoteAddr, every Read returns exactly the next datagram of that remote, byte-identical, nothing on another connection, filtered or overflowing datagrams create nothing (verified at the end: the backlog holds exactly the model's connections), after Close a new datagram creates a fresh connection; non-trivial = >=2 remotes interleaved and at least one of close-then-reconnect, backlog overflow, filter refusal; distinct by hash of config + steps"
+const ruleC11Seq = "sequential phase on a real loopback socket: listener with backlog from {1,2,4,128}, accept filter from {none, first byte != 'X'}, batch reading {off, size 2, size 8}; 1..6 remote sockets (127.0.0.1 with different ports, or other addresses of 127/8 with the port of the first remote); steps send(remote, size 9..8192 or empty, first byte 'X' or not), burst (the read loop is parked inside the accept filter by a gate datagram while 2..6 datagrams, with runs of one remote, are sent back to back, so that they are dispatched from one batch), accept, read, close, close-again (of a connection closed earlier, also after its remote has been given a new one), send-again-after-close; after every send a marker datagram from an always-accepted remote is sent and read back, which (single-threaded FIFO read loop) proves the earlier datagram has been dispatched, so refusals are decidable without sleeping; model: remote -> connection/backlog/queue; oracle: Accept returns the connections in creation order with the right RemoteAddr, every Read returns exactly the next datagram of that remote, byte-identical, nothing on another connection, filtered or overflowing datagrams create nothing (verified at the end: the backlog holds exactly the model's connections), after Close a new datagram creates a fresh connection; non-trivial = >=2 remotes interleaved and at least one of close-then-reconnect, backlog overflow, filter refusal; distinct by hash of config + steps"
 
 func TestC11Sequential(t *testing.T) {
 	r := ev.New("C11", "sequential", ruleC11Seq)
@@ -117,8 +117,21 @@ func TestC11Sequential(t *testing.T) {
 			}
 		}
 		remotes := make([]*net.UDPConn, nr)
+		// some remotes share the PORT of remote 0 and differ in the address only (the whole
+		// of 127/8 is loopback): 127.0.0.2, 127.0.1.1, 127.1.0.1, 127.1.1.1
+		altIPs := []net.IP{net.IPv4(127, 0, 0, 2), net.IPv4(127, 0, 1, 1), net.IPv4(127, 1, 0, 1), net.IPv4(127, 1, 1, 1), net.IPv4(127, 2, 0, 1)}
 		for i := range remotes {
-			remotes[i] = dial()
+			if i > 0 && rapid.Bool().Draw(t, "samePort") {
+				port := remotes[0].LocalAddr().(*net.UDPAddr).Port
+				ip := altIPs[(i-1)%len(altIPs)]
+				if r, err := net.DialUDP("udp", &net.UDPAddr{IP: ip, Port: port}, laddr); err == nil {
+					remotes[i] = r
+					c.Label("remote/same-port-other-address")
+				}
+			}
+			if remotes[i] == nil {
+				remotes[i] = dial()
+			}
 			defer remotes[i].Close() //nolint:errcheck
 		}
 		model := map[int]*mconn{} // live (accepted or pending) connection per remote
